@@ -305,6 +305,117 @@ def canon_run_line(l):
     return ' '.join(t[:k + 1] + [c(x) for x in t[k + 1:]])
 
 
+# the hand-model harnesses (real glm on seeded/exhaustive inputs) under every configuration: same output stream as the default build
+C15_HARNESSES = {   # name: (extra flags, argv after the binary, configurations under which the HARNESS itself does not compile)
+    'C05': (['-O1'], lambda s: ['lines', 'quick', s], []),
+    'C06': (['-O1'], lambda s: ['lines', 'quick', s], ['CXX98', 'CXX03', 'CXX98_XYZW_CTORINIT', 'INLINE', 'SIZE_T_INLINE_EXPLICIT']),
+    'C07': (['-O2'], lambda s: ['quick', s, '20000'], []),
+    'C11': (['-O1'], lambda s: ['lines', s, 'quick'], []),
+    'C14': (['-O1', '-fwrapv'], lambda s: ['lines', s, 'quick'], []),
+    'C18': (['-O2', '-fwrapv'], lambda s: ['plan', 'quick', s], ['CXX98', 'CXX03', 'CXX98_XYZW_CTORINIT', 'PURE', 'ARCH_UNKNOWN', 'DEFAULT_ALIGNED_PURE']),
+}
+C15_HARNESS_SKIP_REASON = ('harness source clashes with the configuration (its own typedef names vs <cstdint> in C++98 mode, function pointers to '
+                           'always_inline functions, or an #error guarding the x86 code path it models)')
+
+
+def _is_snan(v, ty):
+    if ty == 'f': return (v & 0x7f800000) == 0x7f800000 and (v & 0x7fffff) != 0 and not (v & 0x400000)
+    return (v & 0x7ff0000000000000) == 0x7ff0000000000000 and (v & 0xfffffffffffff) != 0 and not (v & 0x8000000000000)
+
+
+def canon_h_line(l):
+    """canonical form of a hand-harness line `op ty in… -> out…` for the comparison between configurations:
+    NaN results are one value; lines with a signalling-NaN input are outside every operation's domain (None);
+    for fmin/fmax/fclamp, which delegate to std::fmin/std::fmax, the sign of a zero result is unspecified by C
+    (and differs between g++ -O0 and -O1 for std::fmax(-0.0f, 0.0f) itself), so ±0 results are one value there."""
+    t = l.split()
+    if len(t) < 4 or '->' not in t or t[1] not in ('f', 'd'): return l
+    k = t.index('->'); ty = t[1]
+    try:
+        ins = [int(x, 16) for x in t[2:k]]; outs = [int(x, 16) for x in t[k + 1:]]
+    except ValueError:
+        return l
+    if any(_is_snan(v, ty) for v in ins): return None
+    tie = re.search(r'f(min|max|clamp)', t[0]) is not None
+    def c(v):
+        if ty == 'f':
+            if (v & 0x7fffffff) > 0x7f800000: return 'nan'
+            if tie and v == 0x80000000: return '0'
+        else:
+            if (v & 0x7fffffffffffffff) > 0x7ff0000000000000: return 'nan'
+            if tie and v == 0x8000000000000000: return '0'
+        return '%x' % v
+    return ' '.join(t[:k + 1] + [c(v) for v in outs])
+
+
+def harness_cfg_compare(configs, seed, unexplained, violations, prop):
+    """returns (pairs compared, lines compared, skipped pairs)"""
+    import hashlib
+    from concurrent.futures import ThreadPoolExecutor
+    from checklib import sha_files, glm_tree_hash
+    jobs = []
+    for h, (hflags, argvf, skip) in C15_HARNESSES.items():
+        src = os.path.join(VERIF, 'diff', h + '.cpp')
+        for cname, cflags in [('default', [])] + list(configs):
+            if cname in skip: continue
+            flags = ['-std=c++17', '-ffp-contract=off', '-w'] + hflags + cflags
+            key = sha_files([src], glm_tree_hash() + ' '.join(flags))[:16]
+            jobs.append((h, cname, cflags, flags, src, os.path.join(CACHE, 'C15h_%s_%s_%s.bin' % (h, cname, key)), argvf(str(seed))))
+    def build(j):
+        h, cname, cflags, flags, src, out, argv = j
+        if os.path.exists(out): return j, None
+        for old in glob.glob(os.path.join(CACHE, 'C15h_%s_%s_*.bin' % (h, cname))):
+            try: os.remove(old)
+            except OSError: pass
+        rc, o = sh(['g++'] + flags + ['-I' + REPO, '-o', out + '.tmp', src], timeout=1800)
+        if rc != 0: return j, o[-400:]
+        os.replace(out + '.tmp', out); return j, None
+    built = []
+    with ThreadPoolExecutor(16) as ex:
+        for j, err in ex.map(build, jobs):
+            if err: unexplained.append('harness %s does not compile under configuration %s: %s' % (j[0], j[1], err))
+            else: built.append(j)
+    def run(j):
+        h, cname, cflags, flags, src, out, argv = j
+        dst = os.path.join(CACHE, 'C15h_%s_%s.out' % (h, cname))
+        with open(dst, 'wb') as f:
+            p = subprocess.run([out] + argv, stdout=f, stderr=subprocess.PIPE, timeout=3000)
+        hs = hashlib.sha256()
+        with open(dst, 'rb') as f:
+            for blk in iter(lambda: f.read(1 << 22), b''): hs.update(blk)
+        return j, p.returncode, hs.hexdigest(), dst
+    outs = {}
+    with ThreadPoolExecutor(16) as ex:
+        for j, rc, hs, dst in ex.map(run, built):
+            if rc != 0: unexplained.append('harness %s under %s exits %d' % (j[0], j[1], rc))
+            outs[(j[0], j[1])] = (hs, dst, j)
+    pairs = nlines = 0
+    for (h, cname), (hs, dst, j) in sorted(outs.items()):
+        if cname == 'default' or (h, 'default') not in outs: continue
+        pairs += 1
+        hs0, dst0, _ = outs[(h, 'default')]
+        if hs == hs0:
+            nlines += sum(1 for _ in open(dst0, 'rb'))
+        else:
+            witness = None
+            with open(dst0, errors='replace') as fa, open(dst, errors='replace') as fb:
+                for la, lb in zip(fa, fb):
+                    nlines += 1
+                    if la == lb: continue
+                    ca, cb = canon_h_line(la.rstrip('\n')), canon_h_line(lb.rstrip('\n'))
+                    if ca is None or cb is None or ca == cb: continue
+                    witness = (la.strip(), lb.strip()); break
+            if witness:
+                violations.append(dict(property=prop, kind='result-differs-between-configurations', unit='harness:%s:%s' % (h, witness[0].split()[0]), component=0,
+                                       configuration=cname, flags=j[2], default_line=witness[0][:600], configuration_line=witness[1][:600],
+                                       replay='g++ %s -I%s diff/%s.cpp && ./a.out %s   # compare with the build without %s' % (' '.join(j[3]), REPO, h, ' '.join(j[6]), ' '.join(j[2]))))
+    for (h, cname), (hs, dst, j) in outs.items():
+        try: os.remove(dst)
+        except OSError: pass
+    skipped = sum(1 for h, (_, _, skip) in C15_HARNESSES.items() for c, _ in configs if c in skip)
+    return pairs, nlines, skipped
+
+
 def run_cfg(prop, tier, seed):
     t0 = time.time()
     for old in glob.glob(os.path.join(REPLAYS, prop + '-*.json')): os.remove(old)
@@ -367,6 +478,8 @@ def run_cfg(prop, tier, seed):
                     la, lb = next(((x, y) for x, y in zip(ref.split('\n'), txt.split('\n')) if x != y), ('', ''))
                     violations.append(dict(property=prop, kind='result-differs-between-optimisation-levels', unit=la.split()[1] if len(la.split()) > 1 else '?', component=0,
                                            configuration=opt, default_line=la[:600], configuration_line=lb[:600], replay='unit binary of %s at %s' % (uf, opt)))
+    hpairs, hlines, hskipped = harness_cfg_compare(configs, seed, unexplained, violations, prop)
+    runs_compared += hlines
     for v in violations[:5]:
         lines.append('VIOLATION property=%s replay=%s' % (prop, write_replay(prop, v)))
     if unexplained and not violations:
@@ -379,6 +492,10 @@ def run_cfg(prop, tier, seed):
                            rule='a "program" is one traced unit under one configuration; it is parsed by the Lean driver and compared structurally (BEq on Glm.Unit) with the '
                                 'unit traced under the default configuration - identical means the configuration generates the very Lean model the theorems of C01/C02/C04/C09/C10/C12/C13 are about; '
                                 'result lines (real glm at float/double on seeded inputs) are compared bit for bit between configurations (and between -O0/-O2/-O3 in the thorough tier)',
+                           harness_pairs=hpairs, harness_lines_compared=hlines, harness_pairs_skipped=hskipped, harness_skip_reason=C15_HARNESS_SKIP_REASON,
+                           harness_rule='the hand-model harnesses diff/C05…C18.cpp (bit-level functions: integer, packing, half, rounding/NaN logic, ULP, bit-fields) are built under every '
+                                        'configuration and must print the same stream as the default build; compared modulo: NaN results are one value, lines with signalling-NaN inputs are skipped, '
+                                        'the sign of a zero returned by fmin/fmax/fclamp (std::fmin/fmax leave it unspecified)',
                            explanation='translation validation of configurations against the default model'),
           'assumptions': ['the theorems transferred are those of the properties whose unit files are listed; optimisation-level independence is a compiler property and only explored (thorough tier)'],
           'wall_s': round(time.time() - t0, 2), 'violations': nviol}
